@@ -38,6 +38,12 @@ def run(ck, ctx):
               "per-run accumulator must start from an empty literal", out_init.loc())
     S.t_class_defaults(ck, ctx)
     ck.floor("T-SHARED-DEFAULT", 20)
+    # the lexer object is long-lived: its flags must be reset on every route to the parser, or a statement aborted in one
+    # run() leaves them dirty for the first statement of the next run()
+    S.t_reset_lexer(ck, ctx)
+    S.t_dom(ck, ctx, "process_line", S.is_self_call("set_default_flags_in_lexer"), S.is_self_call("process_statement"),
+            "Parser.process_line: flag reset dominates process_statement()",
+            "every path that parses a statement must first put the lexer into its start state")
     S.t_noglobal(ck, ctx, "C14")
     # hash-seed independence
     n = S.t_setord(ck, ctx, [f for f in m.all_funcs()])
